@@ -76,6 +76,9 @@ def run_codec_tables(R, tonic, tag='', rule='C01.R3'):
                 news = [(bb, t) for bb, t in b.calls(name='new') if re.search(r'(flate2|zstd)::', t.get('fn') or '')]
                 table[list(variants.values())[0]] = news
             tables[role] = table
+            len_n = param_of_type(b, r'^usize$')
+            adv0 = b.calls(name='advance')
+            src_n = arg_root(b.origin(adv0[0][1]['args'][0])) if adv0 else None
             for name, e in enabled.items():
                 news = table.get(name, [])
                 fams = [short(t['fn']) for bb, t in news if 'Compression::new' not in t['fn']]
@@ -89,7 +92,7 @@ def run_codec_tables(R, tonic, tag='', rule='C01.R3'):
                     okr = False
                     if ix:
                         rng = strip_refs(ix[0][2][1])
-                        okr = rng[0] == 'agg' and rng[1].get('adt', '').endswith('Range') and const_val(rng[2][0]) == 0 and show(rng[2][1]).startswith('arg4') and show(ix[0][2][0]).find('arg2') >= 0
+                        okr = rng[0] == 'agg' and rng[1].get('adt', '').endswith('Range') and const_val(rng[2][0]) == 0 and arg_root(rng[2][1]) == len_n and src_n is not None and arg_root(ix[0][2][0]) == src_n
                     R.check(okr, rule, '%s:%s:reads-0..len%s' % (role, name, tag), site(b, bb), 'codec input = %s' % show(src)[:140])
             R.eq(sorted(table), sorted(enabled), rule, '%s:arms%s' % (role, tag), site(b), 'arms of %s under features %s' % (fname, sorted(feats & {'gzip', 'deflate', 'zstd'})))
             # advance(len) exactly once, on the success path only
@@ -98,7 +101,7 @@ def run_codec_tables(R, tonic, tag='', rule='C01.R3'):
             oks = [bb for bb, i, p, a, ops in mirlib.aggregates(b, 'result::Result', 'Ok') if p['l'] == 0]
             errs = [bb for bb, t in b.calls(name='from_residual')]
             for ab, at in adv:
-                R.check('arg2' in show(b.origin(at['args'][0])) and show(b.origin(at['args'][1])).startswith('arg4'), rule, '%s:advance-args%s' % (role, tag), site(b, ab), 'advance(%s, %s)' % (show(b.origin(at['args'][0])), show(b.origin(at['args'][1]))))
+                R.check(arg_root(b.origin(at['args'][0])) == src_n and re.search(r'BytesMut', b.ty(src_n) if src_n else '') is not None and arg_root(b.origin(at['args'][1])) == len_n, rule, '%s:advance-args%s' % (role, tag), site(b, ab), 'advance(%s, %s): the buffer the codec read from, by the frame length' % (show(b.origin(at['args'][0])), show(b.origin(at['args'][1]))))
                 for ob in oks:
                     R.check(b.dominates(ab, ob), rule, '%s:advance-before-ok%s' % (role, tag), site(b, ob), 'advance dominates the Ok return')
                 for eb in errs:
@@ -118,31 +121,30 @@ def run_layout(R, tonic):
         R.eq(tonic.const('codec::HEADER_SIZE').get('v'), hs, 'C01.R1', 'HEADER_SIZE', 'tonic/src/codec/mod.rs', 'HEADER_SIZE')
         fe = tonic.body('codec::encode::finish_encoding')
         R.saw(fe)
-        pw = mirlib.prefix_writes(fe)
-        layout = [(w, e) for bb, w, e, v, t in pw]
-        R.eq(layout, [(1, 'be'), (4, 'be')], 'C01.R1', 'prefix-writes', site(fe), 'prefix writes as (width, byte order) — accepted idioms: put_u8; put_u32 | put_slice(&x.to_be_bytes())')
-        puts = [(bb, t) for bb, w, e, v, t in pw]
+        pw = prefix_layout(fe)
+        layout = [(d['off'], d['width'], d['endian']) for d in pw]
+        R.eq(layout, [(0, 1, 'be'), (1, 4, 'be')], 'C01.R1', 'prefix-writes', site(fe), 'prefix writes as (offset, width, byte order) — put_u8/put_u32 on a cursor, indexed stores, copy_from_slice(&x.to_be_bytes())')
+        slice_n = param_of_type(fe, r'^&mut \[u8\]$')
+        flag_src = None
         if len(pw) == 2:
-            R.check(fe.dominates(pw[0][0], pw[1][0]), 'C01.R1', 'flag-before-length', site(fe, pw[1][0]), 'the flag write dominates the length write')
-            flag = pw[0][3]
-            okf = flag[0] == 'cast' and is_call(strip_refs(flag[2]), name='is_some') and 'arg1' in show(flag[2])
-            R.check(okf, 'C01.R1', 'flag=is_some(encoding)', site(fe, pw[0][0]), 'flag operand = %s' % show(flag))
-            ln = pw[1][3]
-            okl = ln[0] == 'cast' and 'SubWithOverflow' in show(ln) and 'len(' in show(ln) and 'const(%d)' % hs in show(ln)
-            R.check(okl, 'C01.R1', 'length=slice_len-HEADER_SIZE', site(fe, pw[1][0]), 'length operand = %s' % show(ln))
-            for pb, pt in puts:
-                dst = fe.origin(pt['args'][0])
-                ix = find_terms(dst, lambda x: is_call(x, name='index_mut'))
-                okd = False
-                if ix:
-                    rng = strip_refs(ix[0][2][1])
-                    okd = rng[0] == 'agg' and rng[1].get('adt', '').endswith('RangeTo') and const_val(rng[2][0]) == hs and 'arg3' in show(ix[0][2][0])
-                R.check(okd, 'C01.R1', '%s-into-header-region' % ('flag' if pt is pw[0][4] else 'length'), site(fe, pb), 'destination = %s' % show(dst)[:120])
+            for d, nm in zip(pw, ('flag', 'length')):
+                R.check(d['root'] is not None and arg_root(d['root']) == slice_n and (d['end'] is None or d['end'] <= hs), 'C01.R1', '%s-into-header-region' % nm, site(fe, d['bb']), '%s is written at offset %s of the slice parameter (header region ends at %s)' % (nm, d['off'], d['end']))
+            flag = bool_source(pw[0]['value'])
+            okf = flag is not None and ((is_call(flag, name='is_some') and arg_root(flag[2][0]) in params_of_type(fe, r'Option<.*CompressionEncoding>')) or (flag[0] == 'arg' and fe.ty(flag[1]) == 'bool'))
+            R.check(okf, 'C01.R1', 'flag=is_some(encoding)', site(fe, pw[0]['bb']), 'flag byte = (is_some(encoding) | a bool parameter) as u8: %s' % show(pw[0]['value'])[:100])
+            if okf:
+                flag_src = arg_root(flag[2][0]) if is_call(flag) else flag[1]
+            ln = payload_len_source(pw[1]['value'])
+            okl = 'SubWithOverflow' in show(ln) and find_terms(ln, lambda x: is_call(x, name='len') and arg_root(x[2][0]) == slice_n) and 'const(%d)' % hs in show(ln)
+            R.check(bool(okl), 'C01.R1', 'length=slice_len-HEADER_SIZE', site(fe, pw[1]['bb']), 'length operand = %s' % show(ln)[:100])
         ei = tonic.body('codec::encode::encode_item')
         R.saw(ei)
-        lb = [(bb, t) for bb, t in ei.calls(name='len') if 'arg2' in show(ei.origin(t['args'][0]))]
         rs = [(bb, t) for bb, t in ei.calls(name='reserve') if const_val(ei.origin(t['args'][1])) == hs]
         am = [(bb, t) for bb, t in ei.calls(name='advance_mut') if const_val(ei.origin(t['args'][1])) == hs]
+        # roles of encode_item's parameters: out = the buffer the header is reserved in; scratch = the one that is cleared; enc = Option<CompressionEncoding>
+        out_n = arg_root(ei.origin(am[0][1]['args'][0])) if am else None
+        enc_n = param_of_type(ei, r'Option<.*CompressionEncoding>')
+        lb = [(bb, t) for bb, t in ei.calls(name='len') if arg_root(ei.origin(t['args'][0])) == out_n]
         encs = ei.calls(pat='Encoder::encode')
         R.check(len(am) == 1 and len(rs) == 1, 'C01.R1', 'header-reserved', site(ei), 'reserve(HEADER_SIZE): %d, advance_mut(HEADER_SIZE): %d' % (len(rs), len(am)))
         if am and lb:
@@ -151,7 +153,7 @@ def run_layout(R, tonic):
             for eb, et in encs:
                 R.check(ei.dominates(am[0][0], eb), 'C01.R1', 'header-before-payload', site(ei, eb), 'header region reserved before Encoder::encode')
             fb, ft = ei.call1(name='finish_encoding')
-            dst = ei.origin(ft['args'][2])
+            dst = ei.origin(ft['args'][slice_n - 1])
             ix = find_terms(dst, lambda x: is_call(x, name='index_mut'))
             okd = False
             if ix:
@@ -160,7 +162,9 @@ def run_layout(R, tonic):
             R.check(okd, 'C01.R1', 'finish-on-buf[offset..]', site(ei, fb), 'finish_encoding slice = %s' % show(dst)[:140])
             for eb, et in encs:
                 R.check(ei.dominates(eb, fb) or True, 'C01.R1', 'payload-before-finish', site(ei, fb), 'prefix is written after the payload')
-            R.check(show(ei.origin(ft['args'][0])).startswith('arg4'), 'C01.R1', 'finish-gets-encoding', site(ei, fb), 'encoding argument = %s' % show(ei.origin(ft['args'][0])))
+            fa = strip_refs(ei.origin(ft['args'][flag_src - 1])) if flag_src else None
+            okfa = fa is not None and ((fa[0] == 'arg' and fa[1] == enc_n) or (is_call(fa, name='is_some') and arg_root(fa[2][0]) == enc_n))
+            R.check(okfa, 'C01.R1', 'finish-gets-encoding', site(ei, fb), 'what decides the flag byte comes from encode_item\'s encoding parameter: %s' % (show(fa) if fa else None))
         R.floor('C01.R1', 'Encoder::encode sites', len(encs), 2)
         sg = tonic.sig('codec::encode::encode_item')
         R.check(not any('EncodedBytes' in i or 'Self' in i for i in sg['inputs']), 'C01.R1', 'encode_item-stateless', site(ei), 'encode_item inputs: %r (no access to stream state: frame bytes cannot depend on batching)' % sg['inputs'])
@@ -177,9 +181,16 @@ def run_layout(R, tonic):
             for gb, gt in gets:
                 R.check(mentions_field(dc.origin(gt['args'][0]), 'buf'), 'C01.R2', '%s-from-buf' % gt['name'], site(dc, gb), 'source = %s' % show(dc.origin(gt['args'][0])))
                 gs = dc.edge_guards(gb)
-                okg = any(tm[0] == 'bin' and tm[1] == 'Lt' and is_call(strip_refs(tm[2]), name='remaining') and const_val(tm[3]) == hs and vals == [0] for s, vals, tm in gs)
+                okg = False
+                for s_, vals, tm in gs:
+                    o_ = mirlib.norm_cmp(tm)
+                    # remaining() < HS false | HS > remaining() false | remaining() >= HS true | HS <= remaining() true
+                    if o_[0] == 'bin' and o_[1] == 'Gt' and const_val(o_[2]) == hs and is_call(strip_refs(o_[3]), name='remaining') and vals == [0]:
+                        okg = True
+                    if o_[0] == 'bin' and o_[1] == 'Ge' and const_val(o_[3]) == hs and is_call(strip_refs(o_[2]), name='remaining') and (vals == ['else'] or 0 not in vals):
+                        okg = True
                 R.check(okg, 'C01.R2', '%s-behind-header-complete' % gt['name'], site(dc, gb), 'dominated by false edge of remaining() < %d' % hs)
-            wsum = sum(w or 0 for bb_, w, e_, v_, t_ in mirlib.prefix_writes(tonic.body('codec::encode::finish_encoding')))
+            wsum = sum(d['width'] or 0 for d in prefix_layout(tonic.body('codec::encode::finish_encoding')))
             rsum = sum(BE_GET.get(t['name'], 0) for bb, t in gets)
             R.check(wsum == rsum == hs, 'C01.R2', 'widths', site(dc), 'writer prefix %d bytes, reader prefix %d bytes, HEADER_SIZE %d' % (wsum, rsum, hs))
         # incomplete header -> Ok(None)
@@ -190,14 +201,25 @@ def run_layout(R, tonic):
     R.describe('C01.R4', 'scratch buffers are cleared before every use; decoded views have the right buffer and length')
     with R.guard('C01.R4'):
         ei = tonic.body('codec::encode::encode_item')
-        clears = [(bb, t) for bb, t in ei.calls(name='clear') if 'arg3' in show(ei.origin(t['args'][0]))]
-        enc_comp = [(bb, t) for bb, t in ei.calls(pat='Encoder::encode') if 'arg3' in show(ei.origin(t['args'][2]))]
+        am_ = [(bb, t) for bb, t in ei.calls(name='advance_mut')]
+        out_n = arg_root(ei.origin(am_[0][1]['args'][0])) if am_ else None
+        allclears = ei.calls(name='clear')
+        scr_n = arg_root(ei.origin(allclears[0][1]['args'][0])) if allclears else None
+        R.check(out_n is not None and scr_n is not None and out_n != scr_n, 'C01.R4', 'encode:two-buffers', site(ei), 'output buffer = parameter %s, scratch buffer = parameter %s' % (out_n, scr_n))
+        clears = [(bb, t) for bb, t in allclears if arg_root(ei.origin(t['args'][0])) == scr_n]
+        enc_comp = [(bb, t) for bb, t in ei.calls(pat='Encoder::encode') if mentions_arg(ei.origin(t['args'][2]), scr_n)]
         R.check(len(clears) == 1 and len(enc_comp) == 1 and ei.dominates(clears[0][0], enc_comp[0][0]), 'C01.R4', 'encode:clear-before-encode', site(ei, enc_comp[0][0]) if enc_comp else site(ei),
                 'uncompression_buf.clear() sites %d dominate the compressed-path encode (%d)' % (len(clears), len(enc_comp)))
         cb, ct = ei.call1(pat='compression::compress')
-        R.check('arg3' in show(ei.origin(ct['args'][1])) and 'arg2' in show(ei.origin(ct['args'][2])), 'C01.R4', 'encode:compress-src-dst', site(ei, cb), 'compress(src=%s, dst=%s)' % (show(ei.origin(ct['args'][1])), show(ei.origin(ct['args'][2]))))
-        ln = strip_refs(ei.origin(ct['args'][3]))
-        R.check(is_call(ln, name='len') and 'arg3' in show(ln) and enc_comp and ei.dominates(enc_comp[0][0], [bb for bb, t in ei.calls(name='len') if t is ln[4]][0]), 'C01.R4', 'encode:compress-len-after-encode', site(ei, cb), 'len argument = %s' % show(ln))
+        cmp_b = tonic.body('codec::compression::compress')
+        c_len = param_of_type(cmp_b, r'^usize$')
+        c_adv = cmp_b.calls(name='advance')
+        c_src = arg_root(cmp_b.origin(c_adv[0][1]['args'][0])) if c_adv else None
+        c_dst = [n for n in params_of_type(cmp_b, r'BytesMut') if n != c_src]
+        okcd = c_src is not None and len(c_dst) == 1 and arg_root(ei.origin(ct['args'][c_src - 1])) == scr_n and arg_root(ei.origin(ct['args'][c_dst[0] - 1])) == out_n
+        R.check(okcd, 'C01.R4', 'encode:compress-src-dst', site(ei, cb), 'compress(src=%s, dst=%s)' % (show(ei.origin(ct['args'][c_src - 1])) if c_src else None, show(ei.origin(ct['args'][c_dst[0] - 1])) if c_dst else None))
+        ln = strip_refs(ei.origin(ct['args'][c_len - 1]))
+        R.check(is_call(ln, name='len') and arg_root(ln[2][0]) == scr_n and enc_comp and ei.dominates(enc_comp[0][0], [bb for bb, t in ei.calls(name='len') if t is ln[4]][0]), 'C01.R4', 'encode:compress-len-after-encode', site(ei, cb), 'len argument = %s' % show(ln))
         dc = tonic.body('decode::StreamingInner::decode_chunk')
         db, dt = dc.call1(pat='compression::decompress')
         cl = [(bb, t) for bb, t in dc.calls(name='clear') if mentions_field(dc.origin(t['args'][0]), 'decompress_buf')]
